@@ -322,10 +322,16 @@ class Client:
 
         :param text: the response to parse
         """
+        if text is None:
+            # "NO" without response code nor text
+            self.errcode = b""
+            self.errmsg = b""
+            return
         m = self.__size_expr.match(text)
         if m is not None:
             self.errcode = b""
-            self.errmsg = self.__read_block(int(m.group(1)) + 2)
+            # the literal is followed by the CRLF that ends the response
+            self.errmsg = self.__read_block(int(m.group(1)) + 2)[:-2]
             return
 
         m = self.__error_expr.match(text)
